@@ -523,7 +523,10 @@ func (t *otable) scanAttrs(as []sdp.Attribute) {
 				}
 				for _, part := range append(strings.Split(val, ","), strings.Split(strings.TrimSpace(val), ",")...) {
 					if b, err := base64.StdEncoding.DecodeString(part); err == nil {
-						t.addBlob(bytes.TrimPrefix(b, start4))
+						for bytes.HasPrefix(b, start4) { // as format.H264 / H265 strip start codes
+							b = b[4:]
+						}
+						t.addBlob(b)
 					}
 				}
 			}
